@@ -329,6 +329,19 @@ class _FnCtx:
         self.mutated: Set[str] = set()
         self.builders: Dict[str, list] = {}
         self.body = comprehensionise(func.node.body)
+        # equal-length facts of the function's own arguments: a top-level `if len(a) != len(b): ... raise` leaves len(a) == len(b)
+        self.len_classes: List[Set[str]] = []
+        params = {a.arg for a in func.node.args.args + func.node.args.kwonlyargs}
+        for st in func.node.body:
+            if isinstance(st, ast.If) and st.body and isinstance(st.body[-1], ast.Raise) and not st.orelse and \
+                    isinstance(st.test, ast.Compare) and len(st.test.ops) == 1 and isinstance(st.test.ops[0], ast.NotEq):
+                sides = [st.test.left, st.test.comparators[0]]
+                if all(isinstance(x, ast.Call) and dotted(x.func) == "len" and len(x.args) == 1 and isinstance(x.args[0], ast.Name) and
+                       x.args[0].id in params for x in sides):
+                    a_, b_ = sides[0].args[0].id, sides[1].args[0].id
+                    hit = [c for c in self.len_classes if a_ in c or b_ in c]
+                    merged = {a_, b_}.union(*hit) if hit else {a_, b_}
+                    self.len_classes = [c for c in self.len_classes if c not in hit] + [merged]
         node = ast.Module(body=self.body, type_ignores=[])
         for n in walk_no_nested(node):
             if isinstance(n, ast.Call) and isinstance(n.func, ast.Attribute) and isinstance(n.func.value, ast.Name) and \
@@ -500,6 +513,19 @@ class Extractor:
         x = self._inline_pure(x, env)
         x = _tuple_index_simplify(x)
         x = self._expand_comprehensions(x, env)
+        if getattr(self.cur, "len_classes", None):
+            this = self
+
+            class L(ast.NodeTransformer):
+                def visit_Call(self, n):
+                    self.generic_visit(n)
+                    if dotted(n.func) == "len" and len(n.args) == 1 and not n.keywords:
+                        rep = this._len_rep(n.args[0])
+                        if rep is not None and rep != dotted(n.args[0]):
+                            n = copy.copy(n)
+                            n.args = [ast.parse(rep, mode="eval").body]
+                    return n
+            x = L().visit(copy.deepcopy(x))
         return x
 
     # ------------------------------------------------------------------ iteration domains
@@ -581,6 +607,20 @@ class Extractor:
                 item = ast.Subscript(value=copy.deepcopy(seq), slice=ast.Name(id=j.id, ctx=ast.Load()), ctx=ast.Load())
                 self._unify(target.elts[1], item, binds)
                 return [Ctx("for", target=j, iter=rng)], binds
+        if isinstance(it, ast.Call) and dotted(it.func) == "enumerate" and len(it.args) == 1 and not it.keywords and \
+                isinstance(it.args[0], ast.Call) and dotted(it.args[0].func) == "zip" and not it.args[0].keywords and it.args[0].args and \
+                isinstance(target, ast.Tuple) and len(target.elts) == 2 and isinstance(target.elts[0], ast.Name):
+            # for j, (a, b) in enumerate(zip(A, B))  ==  for j in range(len(A)) with a = A[j], b = B[j] -- when A and B are
+            # known to have the same length (the same source list, or an equal-length fact of the function)
+            seqs = it.args[0].args
+            reps = {self._len_rep(x) for x in seqs}
+            if None not in reps and len(reps) == 1:
+                j = target.elts[0]
+                rep = ast.parse(next(iter(reps)), mode="eval").body
+                rng = ast.Call(func=ast.Name(id="range", ctx=ast.Load()), args=[ast.Call(func=ast.Name(id="len", ctx=ast.Load()), args=[rep], keywords=[])], keywords=[])
+                items = ast.Tuple(elts=[ast.Subscript(value=copy.deepcopy(x), slice=ast.Name(id=j.id, ctx=ast.Load()), ctx=ast.Load()) for x in seqs], ctx=ast.Load())
+                self._unify(target.elts[1], items, binds)
+                return [Ctx("for", target=j, iter=rng)], binds
         if isinstance(it, ast.Call) and isinstance(it.func, ast.Attribute) and it.func.attr == "items" and not it.args and \
                 isinstance(target, ast.Tuple) and len(target.elts) == 2 and isinstance(it.func.value, (ast.Name, ast.Attribute)):
             k = target.elts[0]
@@ -589,7 +629,35 @@ class Extractor:
                 item = ast.Subscript(value=copy.deepcopy(it.func.value), slice=ast.Tuple(elts=[copy.deepcopy(x) for x in k.elts], ctx=ast.Load()), ctx=ast.Load())
             self._unify(target.elts[1], item, binds)
             return [Ctx("for", target=k, iter=it.func.value)], binds
+        if isinstance(it, ast.Call) and dotted(it.func) == "range" and len(it.args) == 1 and not it.keywords and \
+                isinstance(it.args[0], ast.Call) and dotted(it.args[0].func) == "len" and len(it.args[0].args) == 1:
+            rep = self._len_rep(it.args[0].args[0])
+            if rep is not None:
+                it = copy.deepcopy(it)
+                it.args[0].args[0] = ast.parse(rep, mode="eval").body
         return [Ctx("for", target=target, iter=it)], binds
+
+    def _len_rep(self, seq: ast.AST) -> Optional[str]:
+        """a name for len(seq): the sequence a one-generator, unfiltered list comprehension runs over has the same length;
+        arguments in one equal-length class of the function are named by the class's smallest member"""
+        for _ in range(6):
+            if isinstance(seq, ast.ListComp) and len(seq.generators) == 1 and not seq.generators[0].ifs:
+                seq = seq.generators[0].iter
+                continue
+            if isinstance(seq, ast.Call) and dotted(seq.func) in ("list", "tuple") and len(seq.args) == 1 and not seq.keywords and \
+                    isinstance(seq.args[0], (ast.Name, ast.Attribute, ast.ListComp)):
+                seq = seq.args[0]
+                continue
+            break
+        if not isinstance(seq, (ast.Name, ast.Attribute)):
+            return None
+        d = dotted(seq)
+        if d is None:
+            return None
+        for c in getattr(self.cur, "len_classes", []):
+            if d in c:
+                return min(c)
+        return d
 
     def _unify(self, target: ast.AST, value: ast.AST, binds: Dict[str, ast.AST]):
         if isinstance(target, ast.Name):
@@ -1454,7 +1522,15 @@ def _payload(kind: str, args: Dict[str, ast.AST], target: Optional[str], nz: "No
         out["family"] = target
         for k in ("indexes", "lb", "ub", "var_type"):
             if k in args:
-                out[k] = poly_text(args[k])
+                a_ = args[k]
+                if k == "indexes":
+                    # `list(X)` / `[i for i in X]` / `[(i) for i in X]` name the same index list
+                    if isinstance(a_, ast.ListComp) and len(a_.generators) == 1 and not a_.generators[0].ifs and \
+                            isinstance(a_.elt, ast.Name) and isinstance(a_.generators[0].target, ast.Name) and \
+                            a_.elt.id == a_.generators[0].target.id:
+                        a_ = ast.Call(func=ast.Name(id="list", ctx=ast.Load()), args=[a_.generators[0].iter], keywords=[])
+                        ast.fix_missing_locations(a_)
+                out[k] = poly_text(a_)
         out.setdefault("lb", "0")
         out.setdefault("ub", "1")
         out.setdefault("var_type", "'integer'")
